@@ -86,6 +86,21 @@ def rand_metrics_model(r, nmax=120):
             ast = r.choice([a, ["NOT", a]])
         ctcs.append({"name": f"k{k}", "ast": ast})
     spec["ctcs"] = ctcs
+    if r.random() < 0.15 and len(names) >= 3:
+        # feature names that happen to parse as numbers are still feature names
+        pool = ["2024", "1e3", "Infinity", "NaN", "10", "1_000", "inf", "-5", "0x1F"]
+        ren = dict(zip(r.sample(names[1:], min(len(names) - 1, 3)), r.sample(pool, 3)))
+
+        def sub(t):
+            if isinstance(t, list):
+                return [t[0]] + [sub(x) for x in t[1:]]
+            return ren.get(t, t)
+        for f in S.features(spec["root"]):
+            f["name"] = ren.get(f["name"], f["name"])
+        for c in spec["ctcs"]:
+            c["ast"] = sub(c["ast"])
+        old, new = next(iter(ren.items()))
+        spec["ctcs"].append({"name": "num", "ast": ["REQUIRES", new, S.feature_names(spec)[0]]})
     return spec
 
 
@@ -286,6 +301,33 @@ def run_model(acc, source, spec, payload, with_filters=False, r=None):
     return rep
 
 
+def history_reparent(acc, spec, payload):
+    """The same Feature objects analysed, then re-parented under a new root (add_relation) and analysed again:
+    the second report must be the report of the new tree."""
+    from flamapy.metamodels.fm_metamodel.models import Feature, Relation, FeatureModel
+    from flamapy.metamodels.fm_metamodel.operations import FMMetrics
+    model = S.build(spec)
+    try:
+        FMMetrics().execute(model).get_result()
+        newroot = Feature("NewRoot9", [])
+        newroot.add_relation(Relation(newroot, [model.root], 1, 1))
+        newroot.add_relation(Relation(newroot, [Feature("Sibling9", [])], 0, 1))
+        m2 = FeatureModel(newroot, list(model.ctcs))
+        rep = FMMetrics().execute(m2).get_result()
+    except Exception as e:  # noqa: BLE001
+        acc.fail("history:reparented", "no-exception", W, [], f"raises:{type(e).__name__}", str(e)[:200], payload)
+        return
+    spec2 = {"root": {"name": "NewRoot9", "rels": [{"min": 1, "max": 1, "children": [spec["root"]]},
+                                                   {"min": 0, "max": 1, "children": [{"name": "Sibling9", "rels": []}]}]},
+             "ctcs": spec.get("ctcs", [])}
+    probs = judge_report(rep, spec2, m2) + judge_ops(rep, m2)
+    if probs:
+        for clause, d in dict(probs).items():
+            acc.fail("history:reparented", "history:" + clause, W, [], "report-wrong", d, dict(payload, history="reparented"))
+    else:
+        acc.held("history:reparented", S.digest(["reparent", spec]))
+
+
 def run_history(acc, pool, seq, payload):
     """seq: indices into pool; one FMMetrics object analyses them in order (another object is used in
     between); every report must equal the fresh-object report of the same model."""
@@ -329,8 +371,10 @@ def cases(desc):
 
 def run_shard(desc, acc):
     i, n, seed = desc["shard"], desc["nshards"], desc["seed"]
-    for source, spec in cases(desc):
+    for k, (source, spec) in enumerate(cases(desc)):
         run_model(acc, source, spec, {"source": source, "spec": spec if len(S.feature_names(spec)) <= 40 else None})
+        if k % 4 == 0:
+            history_reparent(acc, spec, {"source": "history:reparented", "spec": spec if len(S.feature_names(spec)) <= 40 else None})
         if len(acc.samples) < 2 and source == "random" and spec["ctcs"]:
             acc.sample({"source": source, "spec": spec if len(S.feature_names(spec)) <= 15 else "<large>"})
     # filters on a pool
